@@ -23,5 +23,36 @@ def run(tier, v, wd, replay=None):
             os.remove(part)
     repo = vlib.scratch_repo(wd, "stub")
     run_vectors(v, wd, repo, "./control/", "TestVerifC05", beh, tags="verif,dae_stub_ebpf", timeout=600 if tier == "quick" else 3000)
+    # the data plane on real TCP sockets: concurrent directional copies sharing the splice-pipe pool (SpliceRelay.tla)
+    r = vlib.tlc(wd, "SpliceRelay", "SpliceRelay_mc.cfg", timeout=1500, workers=4)
+    v.add_tlc(r)
+    if r.violated:
+        raise vlib.Infra("SpliceRelay.tla violates %s in the model" % r.violated)
+    r = vlib.tlc(wd, "SpliceRelay", "SpliceRelay_dirty.cfg", timeout=600, workers=1)
+    if r.violated != "OwnBytes":
+        raise vlib.Infra("SpliceRelay.tla with dirty pipes pooled no longer violates OwnBytes: vacuous model")
+    sfile = os.path.join(wd.path, "c05splice.ndjson")
+    # (a) every history of 5 (thorough: also 6) events in which a copy re-uses a pipe another one gave back, or starts after
+    #     another one broke with bytes in its pipe (quick: all of length 5 and a seed-chosen eighth of length 6)
+    lines = []
+    for cfg, keep in ([("SpliceRelay_bfs.cfg", 1), ("SpliceRelay_bfs6.cfg", 8)] if tier == "quick" else [("SpliceRelay_bfs.cfg", 1), ("SpliceRelay_bfs6.cfg", 1)]):
+        part = sfile + "." + cfg
+        r = vlib.tlc(wd, "SpliceRelay", cfg, emit_to=part, timeout=1500, workers=4)
+        v.add_tlc(r)
+        if r.violated:
+            raise vlib.Infra("SpliceRelay.tla violates %s in the model (%s)" % (r.violated, cfg))
+        ls = sorted(open(part).read().splitlines())
+        lines += [l for i, l in enumerate(ls) if (i + vlib.seed()) % keep == 0]
+    # (b) longer random histories
+    sn = 80 if tier == "quick" else 2000
+    part = sfile + ".sim"
+    r = vlib.tlc(wd, "SpliceRelay", "SpliceRelay_gen.cfg", emit_to=part, simulate={"num": sn * 3}, depth=10, workers=4, timeout=1500, max_emit=sn)
+    v.add_tlc(r)
+    if r.violated:
+        raise vlib.Infra("SpliceRelay.tla violates %s in the model (gen)" % r.violated)
+    lines += open(part).read().splitlines()
+    with open(sfile, "w") as f:
+        f.write("\n".join(lines) + "\n")
+    run_vectors(v, wd, repo, "./control/", "TestVerifC05Splice", sfile, tags="verif,dae_stub_ebpf", timeout=1500 if tier == "quick" else 3000, outname="out-splice.json")
     v.assumptions += ["the real ControlPlane.handleConn is driven over in-memory TCP-like sockets (buffered, CloseWrite, read deadlines) in virtual time; routing falls back to the userspace matcher, the outbound is a one-node group whose dialer returns the fake destination",
-                      "the gather-write / splice paths that need real *net.TCPConn sockets are not reached through in-memory sockets"]
+                      "the gather-write / splice paths need real *net.TCPConn sockets: they are driven at the level of one directional copy (defaultRelayCopyEngine.Copy, what relayCore.runDirection runs) over loopback TCP in real time; waits are 30 s, only progress is judged, never speed"]
